@@ -385,6 +385,8 @@ def run_nan():
 
 
 def run_defaults():
+    from .common import defaults_facts
+    defaults_facts(['limits.Limit.__init__', 'limits.Residue.__init__', 'limits.CStepGenerator.__init__'])
     lm = mods()['lm']
     g = lm.CStepGenerator()
     solve.fact('D:CStepGenerator-default-ratio-4-radial-real', g.step_ratio == 4.0 and isinstance(g.step_ratio, float) and g.dtheta == 0)
